@@ -4,6 +4,7 @@ import (
 	"fmt"
 	"regexp"
 	"strings"
+	"time"
 
 	sasl "github.com/emersion/go-sasl"
 	"github.com/fluffle/goirc/client"
@@ -16,7 +17,7 @@ func init() {
 		ID: "C20",
 		Rule: "passwords of 1..200 printable bytes (letters, digits, spaces, '%' verbs, leading ':', quotes) are configured on clients with and without capability negotiation, SASL and tracking; sessions: successful registration plus traffic, " +
 			"dial refused, first write failing, EOF during registration, and a reconnect; a capturing logging.Logger receives every record of every level; the password must not occur in any record's formatted text or in any argument, " +
-			"and when a PASS line reached the wire a masked '-> PASS **************' record must exist. Every scenario is also run with an empty password: a password that occurs in that control log is trivial and skipped (counted). " +
+			"and when a PASS line reached the wire a masked '-> PASS **************' record must exist. Plus flood-protected sessions that reconnect right after a burst, so that the PASS line itself is held back by the penalty. Every scenario is also run with an empty password: a password that occurs in that control log is trivial and skipped (counted). " +
 			"distinct_nontrivial = distinct (password class, session kind, negotiation, sasl, tracking) cells among judged cases.",
 		Assumptions: []string{"the SASL secret is a different secret and not the subject of this property"},
 		Plan: func(tier string, seed int64) []Batch {
@@ -24,7 +25,16 @@ func init() {
 			if tier == "thorough" {
 				n = 12
 			}
-			return splitBatches("pw", n, true, 2, map[string]string{})
+			bs := splitBatches("pw", n, true, 2, map[string]string{})
+			// flood protection on + immediate reconnect: the penalty carried over delays the PASS line itself (real 2 s holds)
+			nf := 2
+			if tier == "thorough" {
+				nf = 8
+			}
+			for i := 0; i < nf; i++ {
+				bs = append(bs, Batch{Name: fmt.Sprintf("floodrc-%d", i), Args: map[string]string{"mode": "floodrc", "k": fmt.Sprint(i)}, Race: true, Procs: 2})
+			}
+			return bs
 		},
 		Run: runC20,
 	})
@@ -155,7 +165,79 @@ func c20RecHas(rec *rig.LogRecord, s string) bool {
 
 var c20EpRe = regexp.MustCompile(`verifmem(ctx)?://ep[0-9]+`)
 
+// runC20FloodReconnect: with flood protection on, a client that reconnects right after a burst has its
+// PASS line rate-limited; whatever the library logs about the delayed line must not contain the password.
+func runC20FloodReconnect(c *Ctx) {
+	k := c.ArgInt("k", 0)
+	if !c.Want("floodrc", k) {
+		return
+	}
+	r := rig.Rand(c.Seed, "C20", "floodrc", k)
+	pass := "pw"
+	for i := 0; i < 14; i++ {
+		pass += string(rune('a' + r.Intn(26)))
+	}
+	if k%2 == 1 {
+		pass += " with space"
+	}
+	logger := rig.NewCapLogger(nil)
+	c.J.Log("CASE %s flood-protected reconnect", Case("floodrc", k))
+	s := NewSession(SessionOpts{Flood: false, Tracking: k%2 == 0, Mutate: func(cfg *client.Config) { cfg.Pass = pass }})
+	defer s.Release()
+	held := 0
+	for cycle := 0; cycle < 2; cycle++ {
+		mc, err := s.Connect()
+		if err != nil {
+			c.R.Inconcl("connect: " + err.Error())
+			return
+		}
+		// the registration burst may be held back by flood protection: 2 s + per line, real time
+		if mc.WaitLineFrom(60*time.Second, 0, func(l string) bool { return strings.HasPrefix(l, "USER ") }) < 0 {
+			c.R.Inconcl("registration not seen within 60 s")
+			return
+		}
+		if cycle == 0 {
+			// two more lines push the penalty close to the threshold
+			if !s.WireMarker(mc) {
+				c.R.Inconcl("marker not reached")
+				return
+			}
+		}
+		if !CloseWatched(s.Conn) {
+			c.R.Inconcl("Close did not return")
+			return
+		}
+	}
+	recs := logger.Records()
+	c.R.Eval(1)
+	masked := 0
+	for _, rec := range recs {
+		if strings.Contains(rec.Format, "Flood! Sleeping") {
+			held++
+		}
+		if rec.Text == "-> PASS **************" {
+			masked++
+		}
+		if c20RecHas(&rec, pass) {
+			c.R.Violate(rig.Violation{Sig: "c20|password-in-log|" + rec.Level, Detail: fmt.Sprintf("a %s record contains the connection password (flood-protected reconnect): format %q", rec.Level, rec.Format), Case: Case("floodrc", k),
+				Witness: map[string]interface{}{"record": rec.Text}})
+			break
+		}
+	}
+	if masked != 2 {
+		c.R.Violate(rig.Violation{Sig: "c20|no-masked-record", Detail: fmt.Sprintf("%d masked PASS records for 2 connections", masked), Case: Case("floodrc", k)})
+	}
+	c.R.Count("flood_holds_logged", int64(held))
+	c.R.Count("log_records_examined", int64(len(recs)))
+	c.R.Class(fmt.Sprintf("floodrc|holds>0=%v|space=%v", held > 0, k%2 == 1))
+	c.R.Sample(map[string]interface{}{"session": "flood-protected reconnect", "flood_holds_logged": held, "records": len(recs)})
+}
+
 func runC20(c *Ctx) {
+	if c.Arg("mode", "") == "floodrc" {
+		runC20FloodReconnect(c)
+		return
+	}
 	part, parts := c.ArgInt("part", 0), c.ArgInt("parts", 1)
 	total := c.Pick(4000, 100000)
 	per := total / parts
